@@ -161,10 +161,12 @@ def _replay_emergency(n_farms, owners, fixed_kinds=None):
         exp = m.get('expiring_at') if m.get('is_closed') else None
         farms = []
         for k in range(n_farms):
-            kind = fixed_kinds[k] if fixed_kinds else ['active', 'future', 'expired'][ch['farm%d_kind' % k]]
+            kind = fixed_kinds[k] if fixed_kinds else KINDS[ch['farm%d_kind' % k]]
             funded, claimed = m['f%d_funded' % (k + 1)], m['f%d_claimed' % (k + 1)]
             if kind in ('active', 'future'):
                 start, end = m.get('f%d_start' % (k + 1), ep - 1 if kind == 'active' else ep + 1), ep + 5
+            elif kind == 'exhausted_in_window':
+                start, end = m.get('f%d_start' % (k + 1), ep - 1), ep + 1
             else:
                 start, end = 1, 3
             farms.append((_fid(k, n_farms), owners[k], LP1, 'uusd', funded, claimed, 1, start, end))
@@ -174,6 +176,11 @@ def _replay_emergency(n_farms, owners, fixed_kinds=None):
                 'config': {'emergency_unlock_penalty_atomics': str(m['base_penalty_atomics'])},
                 'txs': [('alice', {'manage_position': {'action': {'withdraw': {'identifier': 'u-a', 'emergency_unlock': True}}}}, [])]}
     return fm_replay(build)
+
+
+# activity of a farm on the position's LP token: started with budget left / not started yet / ended long ago and exhausted /
+# exhausted (everything claimed) while still inside its emission window -- only the first kind is `currently active`
+KINDS = ['active', 'future', 'expired', 'exhausted_in_window']
 
 
 def _fid(k, n):
@@ -207,7 +214,7 @@ def _ob_emergency(n_farms, owners, fixed_kinds=None):
         put_weight(I, 'alice', LP1, ep, I.sym('user_w', hi=U128))
         kinds = []
         for k in range(n_farms):
-            kind = fixed_kinds[k] if fixed_kinds else ['active', 'future', 'expired'][I.choose(3, 'farm%d_kind' % k)]
+            kind = fixed_kinds[k] if fixed_kinds else KINDS[I.choose(len(KINDS), 'farm%d_kind' % k)]
             kinds.append(kind)
             funded = I.sym('f%d_funded' % (k + 1), lo=1, hi=U128)
             claimed = I.sym('f%d_claimed' % (k + 1), hi=U128)
@@ -222,6 +229,10 @@ def _ob_emergency(n_farms, owners, fixed_kinds=None):
                 start, end = I.sym('f%d_start' % (k + 1), lo=1, hi=10 ** 6 + 4), simp(ep + 5)
                 I.assume(smt.And(start > ep, start < end))
                 I.assume(claimed < funded)
+            elif kind == 'exhausted_in_window':
+                start, end = I.sym('f%d_start' % (k + 1), lo=1, hi=10 ** 6), simp(ep + 1)
+                I.assume(start <= ep)
+                I.assume(smt.Eq(claimed, funded))       # nothing left to emit: expired although the window is still open
             else:
                 start, end = 1, 3
                 I.assume(smt.Eq(claimed, funded))       # exhausted farm = expired
@@ -284,7 +295,7 @@ for _n, _own in ((0, ()), (1, ('carol',)), (2, ('carol', 'dave')), (2, ('carol',
                statement='emergency withdrawal of an open or still-locked position: payout + penalty shares <= recorded amount; penalty = floor(amount*penalty rate); '
                          'fee collector gets penalty - floor(penalty/2) and each distinct owner of an ACTIVE farm floor(floor(penalty/2)/n) '
                          '(all to the fee collector when there is none or the share rounds to 0); future/expired farms get nothing; position deleted',
-               bounds='amount [1,2^128/17), base penalty [0,100%%], %d farms each active/future/expired, times symbolic' % _n,
+               bounds='amount [1,2^128/17), base penalty [0,100%%], %d farms each active / future / expired / exhausted inside its window, times symbolic' % _n,
                covers=['ok'], tier='quick' if _n < 2 else 'thorough', replay=_replay_emergency(_n, _own))(_ob_emergency(_n, _own))
 
 
